@@ -356,7 +356,16 @@ func checkHeap(c core.Case, out []string) *core.Failure {
 				e, _ := atoi(t[1])
 				v, _ := atoi(t[2])
 				vals[e] = v
-				if live[0][e] || live[1][e] {
+				for kk := 0; kk < 2; kk++ {
+					if !live[kk][e] {
+						continue
+					}
+					// Fix promises to repair ONE changed element: a second pending change breaks the contract
+					for o := range dirty {
+						if o != e && live[kk][o] {
+							broken[kk] = true
+						}
+					}
 					dirty[e] = true
 				}
 			case "popall":
